@@ -5,7 +5,7 @@ SPEC = {
     "lean_dirs": ["SemaModel/C02", "SemaModel/Compose"],
     "harness": "c02",
     "harness_args": {"quick": ["-shards", 48, "-batches", 14, "-searches", 18, "-searchx", 6, "-rank", 200, "-accept", 60, "-acceptbatches", 12],
-                     "thorough": ["-shards", 500, "-batches", 22, "-searches", 24, "-searchx", 8, "-rank", 2500]},
+                     "thorough": ["-shards", 500, "-batches", 22, "-searches", 24, "-searchx", 8, "-rank", 2500, "-accept", 600, "-acceptbatches", 14]},
     "timeout": {"quick": 600, "thorough": 3000},
     "level": "proof",
     "tie": "T2: tools/facts_c02 extracts (go/ast) the operator table of IndexInverted.Search, the arms of processChange and getOperation, the array combinators and what string.go lower-cases into Generated/FactsC02.lean on every run; SemaModel/C02/Lemmas.lean pins each table next to the model definition transcribing it; T1: the key functions in every theorem are the toByteSortable_* definitions of SemaModel/Generated/Sortable.lean, regenerated from shard/index/inverted/sortable.go on every run; T3: the hand-written model of inverted.go / string.go / array.go / dispatch.go / search.go (SemaModel/C02/Model.lean) and a real shard (bbolt file and memory backend) are run on the same histories of write batches and queries, comparing every query answer and a dump of every index bucket after every batch; the specification of each query is additionally evaluated straight from the documents against the real answers (oracle)",
